@@ -189,7 +189,7 @@ class Ctx:
         return r.stdout
 
     # -------------------------------------------------------------- drivers
-    def drv(self, family, args=(), race=False, timeout=150, tags="test verif", extra_env=None, crash_violation=False):
+    def drv(self, family, args=(), race=False, timeout=150, tags="test verif", extra_env=None, crash_violation=False, seed=None):
         exe = self.build("drv", race=race, tags=tags)
         self.n += 1
         d = os.path.join(self.scratch, "drv%d" % self.n)
@@ -198,7 +198,7 @@ class Ctx:
         summ = os.path.join(d, "summary.json")
         root = os.path.join(d, "root")
         os.makedirs(root)
-        cmd = [exe, family, "--seed", str(self.seed), "--tier", self.tier, "--out", trace,
+        cmd = [exe, family, "--seed", str(self.seed if seed is None else seed), "--tier", self.tier, "--out", trace,
                "--summary", summ, "--root", root, *args]
         t = time.time()
         try:
